@@ -307,14 +307,25 @@ func c41UnitConcurrent(c *mon.Ctx) {
 		var hist []porcupine.Operation
 		var wg sync.WaitGroup
 		startGate := make(chan struct{})
+		gates := make([]atomic.Int32, 8)
+		want := make([]int32, 8)
+		for cl := range progs {
+			for k := range progs[cl] {
+				want[k]++
+			}
+		}
 		for cl := range progs {
 			wg.Add(1)
 			go func(cl int) {
 				defer wg.Done()
 				<-startGate
 				for k, in := range progs[cl] {
-					if (k+cl)%2 == 0 {
-						runtime.Gosched()
+					// step barrier: all clients that have a k-th operation issue it together
+					gates[k].Add(1)
+					for spins := 1; gates[k].Load() < want[k] && spins < 2_000_000; spins++ {
+						if spins%4096 == 0 {
+							runtime.Gosched() // busy-wait otherwise: the operations take ~100 ns
+						}
 					}
 					var out pcOut
 					call := clock.Add(1)
